@@ -1385,6 +1385,22 @@ def loop_shape(f, loop):
                      (n.get("op") in ("++", "--", "=") or n["k"] == "CompoundAssignOperator") and vid_of(kids(n)[0]) == vid]
             return dict(var=vid, name=v.get("name"), dir="down", bound=start_of(vid), start=None, rel="--", stepped=not other and inc is None)
         return None
+    if cond["k"] == "BinaryOperator" and cond.get("op") in (">", "!=") and cv(kids(cond)[1]) == 0 and vid_of(kids(cond)[0]) is not None:
+        # counting down to zero:  for (v = N; v > 0; --v)  /  while (v > 0) { ...; --v; }   (N iterations)
+        v = strip(kids(cond)[0])
+        vid = vid_of(v)
+        decs = [n for n in walk(loop) if (n["k"] == "UnaryOperator" and n.get("op") == "--" and vid_of(kids(n)[0]) == vid) or
+                (n["k"] == "CompoundAssignOperator" and n.get("op") == "-=" and vid_of(kids(n)[0]) == vid and cv(kids(n)[1]) == 1)]
+        writes = [n for n in walk(body) if n["k"] == "BinaryOperator" and n.get("op") == "=" and vid_of(kids(n)[0]) == vid]
+        ups = [n for n in walk(loop) if n["k"] == "UnaryOperator" and n.get("op") == "++" and vid_of(kids(n)[0]) == vid]
+        if len(decs) == 1 and not ups:
+            nested = False
+            for a in f.ancestors(decs[0]):
+                if a["i"] == loop["i"]:
+                    break
+                if a["k"] in ("IfStmt", "SwitchStmt", "ForStmt", "WhileStmt", "DoStmt", "CXXForRangeStmt", "ConditionalOperator"):
+                    nested = True
+            return dict(var=vid, name=v.get("name"), dir="down", bound=start_of(vid), start=None, rel=">0", stepped=not writes and not nested)
     if cond["k"] != "BinaryOperator" or cond.get("op") not in ("<", "!=", "<="):
         return None
     v = strip(kids(cond)[0])
